@@ -7,6 +7,7 @@ import (
 	"fmt"
 	"strings"
 	"unicode"
+	"unicode/utf8"
 
 	"github.com/ory/keto/ketoapi"
 	opl "github.com/ory/keto/proto/ory/keto/opl/v1alpha1"
@@ -97,11 +98,16 @@ func (e *ParseError) ToProto() *opl.ParseError {
 // toSrcPos converts the given position in the input to a Line and column
 // number.
 func (e *ParseError) toSrcPos(pos int) (srcPos ketoapi.SourcePosition) {
+	// pos is a byte offset (item.Start / item.End), while lines and columns
+	// are counted in characters: the loop must stop at the character that
+	// starts at or after byte pos, not after pos characters.
 	srcPos.Line = 1
-	for _, c := range e.p.lexer.input {
+	input := e.p.lexer.input
+	for i := 0; i < len(input); {
+		c, width := utf8.DecodeRuneInString(input[i:])
 		srcPos.Col++
-		pos--
-		if pos <= 0 {
+		i += width
+		if i >= pos {
 			break
 		}
 		if c == '\n' {
